@@ -1,7 +1,7 @@
 (* Properties_C01.v — property C01: the collector never reclaims a reachable object and every
    collection terminates.  Only statements closed by `exact`, each followed by Print Assumptions.
    The switches gc_tls_recurses / gc_mar_guarded come from Generated.v (read off src/GC.c). *)
-From CelloV Require Import Generated HeapGraph MarkSweep MarkSweepProofs MarkSource.
+From CelloV Require Import Generated RobinHood RobinHoodProofs RegistryModel RegistryProofs HeapGraph MarkSweep MarkSweepProofs MarkSource GCGlue.
 
 (* the model's two switches and the transcribed function bodies agree with the C text *)
 Theorem mark_model_matches_source :
@@ -152,3 +152,105 @@ Theorem unguarded_recurse_refuted : forall fuel,
   mark true false d17_heap d17_reg w8 w8 fuel (cons w8 nil) nil (cons w8 nil) nempty = OutOfFuel.
 Proof. exact MarkSweepProofs.d17_mark_diverges. Qed.
 Print Assumptions unguarded_recurse_refuted.
+
+(* ================================================================== glue to C17 (coq/GCGlue.v)
+   The theorems above take the registry abstractly (finite map address -> root flag, `order`, mark
+   set) and list as hypotheses what C17 owns.  Below these hypotheses are DISCHARGED from C17's
+   concrete slot-array model (RegistryModel.v, RegistryProofs.v; hashf = GC_Hash is arbitrary):
+     areg (slots g)    abstraction of a C17 registry state: registered address -> root flag
+     aorder (slots g)  the registered addresses in slot order
+     Marked (slots g)  the addresses whose entry carries a mark bit
+     cmark             GC_Mark over the C17 state: GC_Mark_Item = RegistryModel.mark_item (prefilter,
+                       probe loop, mark bit), registered test of GC_Mark_And_Recurse = gc_mem
+                       (GC_Mem_Ptr's probe loop), root loop over slot indices, GC_Recurse by contents
+   Still hypotheses afterwards: addr_ok (the allocator returns non-NULL word-aligned addresses — not
+   part of C17's invariant), wf and raw_wf (heap side: the mutator's obligations), and C17's own
+   premises (dtors_ok, admissible history: the allocator never returns a registered address). *)
+
+(* (a) in the state reached by ANY C17-admissible history: order_ok, range_ok, "lookup = exact
+   membership" (GC_Mem_Ptr's probe loop answers by the abstract registry), the abstract registry is
+   the ledger of the event log, no mark bit is set, no sweep is pending *)
+Theorem glue_registry_hypotheses : forall hashf d rf nf ops, dtors_ok d ->
+  Gadm hashf d rf nf ops gc_init ->
+  let g := Grun hashf d rf nf ops gc_init in
+  addr_ok (slots g) ->
+  order_ok (areg (slots g)) (aorder (slots g)) /\
+  range_ok (areg (slots g)) (minptr g) (maxptr g) /\
+  (forall p, gc_mem hashf g p = Some (registered (areg (slots g)) p)) /\
+  (forall p s, nget p (areg (slots g)) = Some s <-> led (evs g) p s) /\
+  (forall q, ~ Marked (slots g) q) /\
+  pending g = nil.
+Proof. exact GCGlue.glue_registry_hypotheses_thm. Qed.
+Print Assumptions glue_registry_hypotheses.
+
+(* (b) GC_Mark_Item of the C17 model (prefilter + probe loop) is total, changes mark bits only, and
+   the set of marked addresses grows by w exactly when w passes the prefilter and is registered:
+   it IS the abstract "set the mark bit of a registered address" *)
+Theorem glue_mark_item_exact : forall hashf g w,
+  InvM hashf g -> nslots g <> 0 -> addr_ok (slots g) ->
+  exists g', RegistryModel.mark_item hashf g w = Some (Some g') /\ PW (slots g) (slots g') /\ same_rest g g' /\
+    forall q, Marked (slots g') q <->
+              Marked (slots g) q \/
+              (q = w /\ prefilter (minptr g) (maxptr g) w = true /\ registered (areg (slots g)) w = true).
+Proof. exact GCGlue.mark_item_exact. Qed.
+Print Assumptions glue_mark_item_exact.
+
+(* (c) simulation: the concrete mark phase over the C17 registry and the abstract mark phase of the
+   theorems above run in lock step — same outcome (Ok / Crash / OutOfFuel), and on Ok the C17
+   invariant still holds, only mark bits changed (PW), and the marked addresses are the same *)
+Theorem glue_mark_simulation : forall hashf h g fuel tls stack,
+  Inv hashf g -> Quiet g -> addr_ok (slots g) -> nitems g <> 0 ->
+  osim hashf (slots g) (minptr g) (maxptr g)
+    (cmark hashf h fuel tls stack g)
+    (mark gc_tls_recurses gc_mar_guarded h (areg (slots g)) (minptr g) (maxptr g) fuel (aorder (slots g)) tls stack nempty).
+Proof. exact GCGlue.cmark_sim. Qed.
+Print Assumptions glue_mark_simulation.
+
+(* (d) one collection with the concrete registry: the concrete mark phase terminates; the concrete
+   compaction loop of GC_Sweep then keeps every registered object that is root-flagged or reachable
+   and reclaims only registered, non-root, unreachable objects, each once *)
+Theorem glue_collect_safe : forall hashf h g tls stack,
+  Inv hashf g -> Quiet g -> addr_ok (slots g) ->
+  wf h (areg (slots g)) tls -> raw_wf h (areg (slots g)) ->
+  exists g1 l' rm,
+    cmark hashf h (fuel_of h (areg (slots g)) (aorder (slots g))) tls stack g = Ok g1 /\
+    InvM hashf g1 /\ Quiet g1 /\ PW (slots g) (slots g1) /\
+    reclaimed_by_sweep g1 l' rm /\ Core hashf l' /\
+    (forall p s, Reg g p s -> (s = true \/ reach h (areg (slots g)) tls stack p) ->
+       (exists e, Holds gentry l' e /\ ptr e = p /\ root e = s) /\ ~ In p (map ptr rm)) /\
+    (forall x, In x rm -> Reg g (ptr x) false /\ ~ reach h (areg (slots g)) tls stack (ptr x)) /\
+    NoDup (map ptr rm).
+Proof. exact GCGlue.glue_collect_safe_thm. Qed.
+Print Assumptions glue_collect_safe.
+
+(* (e) the composed statement: collect_safe with the registry hypotheses replaced by "g is reached
+   by a C17-admissible history"; the objects are named by C17's ledger of the event log; the whole
+   GC_Sweep (finaliser loop included, C17's sweep_total) then succeeds and re-establishes C17's
+   invariant *)
+Theorem glue_history_collect_safe : forall hashf d rf nf ops h tls stack, dtors_ok d ->
+  Gadm hashf d rf nf ops gc_init ->
+  let g := Grun hashf d rf nf ops gc_init in
+  addr_ok (slots g) -> wf h (areg (slots g)) tls -> raw_wf h (areg (slots g)) ->
+  exists g1 l' rm,
+    cmark hashf h (fuel_of h (areg (slots g)) (aorder (slots g))) tls stack g = Ok g1 /\
+    PW (slots g) (slots g1) /\
+    reclaimed_by_sweep g1 l' rm /\
+    (forall p s, led (evs g) p s -> (s = true \/ reach h (areg (slots g)) tls stack p) ->
+       (exists e, Holds gentry l' e /\ ptr e = p /\ root e = s) /\ ~ In p (map ptr rm)) /\
+    (forall x, In x rm -> led (evs g) (ptr x) false /\ ~ reach h (areg (slots g)) tls stack (ptr x)) /\
+    NoDup (map ptr rm) /\
+    exists g2, Gsweep hashf d rf nf g1 = Some g2 /\ Inv hashf g2 /\ Quiet g2.
+Proof. exact GCGlue.glue_history_collect_safe_thm. Qed.
+Print Assumptions glue_history_collect_safe.
+
+(* non-vacuity: C17's example history (five allocations, 11 slots, GC_Hash = ptr >> 3) is admissible,
+   its registry satisfies addr_ok, a heap over the five objects (plain struct, Tuple with a cycle, Array
+   of Ref, a self-referential unreachable object) satisfies wf and raw_wf; the concrete mark phase
+   and compaction loop reclaim exactly the two unreachable objects *)
+Example glue_hypotheses_inhabited :
+  Gadm ex_hash ex_d false false glue_ops gc_init /\
+  addr_ok (slots glue_g) /\ wf glue_heap (areg (slots glue_g)) nil /\ raw_wf glue_heap (areg (slots glue_g)) /\
+  exists g1 l' rm,
+    cmark ex_hash glue_heap (fuel_of glue_heap (areg (slots glue_g)) (aorder (slots glue_g))) nil glue_stack glue_g = Ok g1 /\
+    reclaimed_by_sweep g1 l' rm /\ map ptr rm = glue_reclaimed /\ map ptr (entries gentry l') = glue_kept.
+Proof. exact GCGlue.glue_example. Qed.
